@@ -1,4 +1,4 @@
-// included by drv_matmul_f1.cpp / drv_matmul_f2.cpp
+// body shared by drv_matmul_f1.cpp / drv_matmul_f2.cpp (fixed-size operands); not a stand-alone header
 namespace mm {
 #define FM_CASE(R, C) if (r == R && c == C) { build_FM1<MM_FIXED_ACT, R, C>(s, v); return true; }
 #define FV_CASE(N) if (n == N) { build_FV1<MM_FIXED_ACT, N>(s, v); return true; }
